@@ -89,6 +89,7 @@ type gor struct {
 	id      int
 	name    string
 	resume  chan resumeMsg
+	yielded chan struct{}
 	pending *pendingOp
 	done    bool
 	nops    int
@@ -152,7 +153,7 @@ type goroutineKilled struct{}
 // spawn creates a modelled goroutine running body and runs it to its first sync op.
 // Must be called while holding the baton (from the scheduler or from a running goroutine).
 func (s *scheduler) spawn(name string, body func()) *gor {
-	g := &gor{id: len(s.gs), name: name, resume: make(chan resumeMsg)}
+	g := &gor{id: len(s.gs), name: name, resume: make(chan resumeMsg), yielded: make(chan struct{})}
 	s.gs = append(s.gs, g)
 	parent := s.running
 	go func() {
@@ -166,7 +167,7 @@ func (s *scheduler) spawn(name string, body func()) *gor {
 					g.panicV = r
 				}
 			}
-			s.baton <- g
+			g.yielded <- struct{}{}
 		}()
 		if msg.kill {
 			panic(goroutineKilled{})
@@ -176,7 +177,7 @@ func (s *scheduler) spawn(name string, body func()) *gor {
 	// run the child up to its first sync op
 	s.running = g
 	g.resume <- resumeMsg{}
-	<-s.baton
+	<-g.yielded
 	s.running = parent
 	if g.panicV != nil {
 		// propagate engine-level terminations immediately
@@ -214,7 +215,7 @@ func (s *scheduler) syncPoint(op *pendingOp) resumeMsg {
 	}
 	g.pending = op
 	g.nops++
-	s.baton <- g
+	g.yielded <- struct{}{}
 	msg := <-g.resume
 	if msg.kill {
 		panic(goroutineKilled{})
@@ -230,7 +231,7 @@ func (s *scheduler) resume(g *gor, msg resumeMsg) {
 	prev := s.running
 	s.running = g
 	g.resume <- msg
-	<-s.baton
+	<-g.yielded
 	s.running = prev
 	if g.panicV != nil {
 		s.checkFatal(g)
@@ -581,7 +582,7 @@ func (s *scheduler) killAll() {
 	for _, g := range s.gs {
 		if !g.done {
 			g.resume <- resumeMsg{kill: true}
-			<-s.baton
+			<-g.yielded
 		}
 	}
 }
